@@ -218,7 +218,7 @@ func runOneStdio(c stdioCase) (sx.V, sx.V) {
 	if err != nil {
 		return in, sx.L{sx.S("start-error: " + err.Error()), sx.S("")}
 	}
-	defer cl.Kill()
+	defer boundedKill(cl)
 	// a write blocks in the plugin when nobody drains its stdio any more: bounded, and after the first one that
 	// does not come back the rest are skipped (what arrived is the observation)
 	var stuck int32
